@@ -426,4 +426,27 @@ Section ComposeX.
     split; [exact Hu|]. split; [exact H1|]. split; [|auto].
     apply reader_path_ext_bytes; assumption.
   Qed.
+
+  (* the five-path theorem of Props/C10_link.v (C10_text_bin_agree_partial) is the XBase, colour-free instance *)
+  Theorem logicdoc_five_paths sh d e cap sched :
+    wf_ldoc d = true -> norgb_fields d = true -> shared decode pf cfg sh d -> enc_ok decode cfg e d ->
+    BinReader.no_fail sched = true -> BinLexer.fits cap (BinDoc.enc_doc (fst (to_bin e d)) (snd (to_bin e d))) = true ->
+    let v := spec_value2 false decode pf F sh (to_text d) in
+    let b := BinDoc.enc_doc (fst (to_bin e d)) (snd (to_bin e d)) in
+    v <> Err EC_UNFIT /\
+    TextDeTape.deser_tape decode pf F sh (TextDoc.flatten (to_text d)) = v /\
+    TextDeStream.deser_stream decode pf F sh (tokens (to_text d)) = v /\
+    BinDeTape.deser_tape cfg sh b = v /\ BinDeOndemand.deser_ondemand cfg sh b = v /\ BinDeReader.deser_reader cfg cap sched sh b = v.
+  Proof.
+    intros Hw Hn Hs He Hnf Hcap.
+    assert (Hb : binx_bytes e (of_ldoc d) = BinDoc.enc_doc (fst (to_bin e d)) (snd (to_bin e d))) by (unfold binx_bytes; rewrite of_ldoc_bin; reflexivity).
+    pose proof (xtext_bin_agree_stream sh (of_ldoc d) e cap sched) as H.
+    rewrite of_ldoc_text, Hb in H. apply H.
+    - rewrite wf_embed. exact Hw.
+    - apply rgbpos_embed, Hn.
+    - apply shared_embed, Hs.
+    - apply enc_embed, He.
+    - exact Hnf.
+    - exact Hcap.
+  Qed.
 End ComposeX.
